@@ -18,5 +18,9 @@ CHECKS = {
   "technique": "trace validation by TLC: PolyTree parent vector + rings recorded from the library, containment forest recomputed in TLA+ (PathOps!Depth/InsideRing) and compared",
   "text": "For every recorded tree execution TLC compares the tree's rings with the paths execution (bag of canonical rings), recomputes each node's containment depth from geometry as an independent nesting oracle, and checks level/orientation alternation, child-inside-parent, sibling disjointness and area; inputs are deep nests, general-position polygons, ladders and rectilinear walks with touching holes.",
   "note": TRUST},
+ "C12": {"level": "model_checking", "design_ref": "DESIGN.md section 5 / C12",
+  "technique": "TLC enumerates every history of the abstract object machine spec/Clipper2.tla (with the abstract state at each Execute); histories are replayed into real Clipper64/ClipperD/ClipperOffset/RectClip64 objects and into fresh objects fed the abstract state; HistTrace.tla validates the recorded replay",
+  "text": "Exhaustive over all histories up to length 4 (quick) / 5 (thorough) of the alphabets in Clipper2.tla, each replayed in several geometry worlds; the specification is the oracle for what an object currently holds, a fresh real object for what the result must then be (bit-identical). Invariants of the machine (state is a function of the held adds and options, Execute is pure) are model-checked by TLC. For ClipperOffset the bag-union-of-units clause is decided by TLC on ring identities.",
+  "note": TRUST + " Ring identities (content-addressed naming of result rings) are assigned by the harness. Known finding S11 (few-unit rounding differences caused by distant groups) is matched by HistTrace!OnlyRounding."},
 }
 NOT_YET = {("C%02d" % i): "check not built yet in this revision (work in progress, see DESIGN.md section 8)" for i in range(1, 21)}
